@@ -224,6 +224,11 @@ def str_consts_compared(node_iter, varname) -> Set[str]:
                 for e in c.elts:
                     if isinstance(e, ast.Constant) and isinstance(e.value, str):
                         out.add(e.value)
+            elif isinstance(n.ops[0], (ast.In, ast.NotIn)) and isinstance(c, ast.Dict):
+                # membership in a dispatch table: the keys are the handled constants
+                for e in c.keys:
+                    if isinstance(e, ast.Constant) and isinstance(e.value, str):
+                        out.add(e.value)
     return out
 
 
@@ -692,3 +697,21 @@ def derived_names(fi, name):
                             derived.add(x.id)
                             changed = True
     return derived
+
+
+from ..cfg import entails, _prop, _prop_atoms, _prop_eval  # noqa: E402,F401  (propositional reasoning over branch facts lives in cfg.py)
+
+
+def arg_for_param(callee, call, pname):
+    """Expression that a call binds to parameter `pname` of the (resolved) callee: keyword or position; None if left to the default."""
+    for k in call.keywords:
+        if k.arg == pname:
+            return k.value
+    params = [p for p in callee.params]
+    if callee.cls is not None and params and params[0] in ("self", "cls") and isinstance(call.func, ast.Attribute):
+        params = params[1:]
+    if pname in params:
+        i = params.index(pname)
+        if i < len(call.args) and not any(isinstance(a, ast.Starred) for a in call.args[: i + 1]):
+            return call.args[i]
+    return None
